@@ -18,7 +18,7 @@ d0=$(run_demo)
 build=$( (cd $wt && go build ./... >/dev/null 2>&1; echo $?) )
 base=$(python3 /verif/tools/baseline_check.py $wt | head -1)
 d1=$(run_demo)
-chk=$(/verif/bin/govc check $prop --repo $wt --no-evidence 2>&1); crc=$?
+chk=$(${GOVC:-/verif/bin/govc} check $prop --repo $wt --no-evidence 2>&1); crc=$?
 viol=$(echo "$chk" | grep '^FAILED' | head -4 | sed 's/:.*//; s/^FAILED //' | tr '\n' ';')
 git -C /repo worktree remove --force $wt
 python3 - "$seed" "$prop" "$patch" "$d0" "$build" "$base" "$d1" "$crc" "$viol" <<'PY'
@@ -32,7 +32,7 @@ meta={"seed":seed,"property":prop,"patch":os.path.basename(patch),
  "summary":agent.get("summary",""),"needs_to_manifest":agent.get("needs",""),
  "confirmed_on":"scratch git worktree of /repo HEAD (with the fix: commits), removed afterwards",
  "demo_exit_without_change":int(d0),"build_exit_with_change":int(build),"baseline_with_change":base,
- "demo_exit_with_change":int(d1),"check_cmd":"/verif/bin/govc check %s --repo <worktree> --no-evidence"%prop,
+ "demo_exit_with_change":int(d1),"check_cmd":"${GOVC:-/verif/bin/govc} check %s --repo <worktree> --no-evidence"%prop,
  "check_exit_with_change":int(crc),"failed_obligations":[v for v in viol.split(';') if v],
  "confirmed": int(d0)==0 and int(build)==0 and 'missing: 0' in base and int(d1)!=0,
  "caught": int(crc)==1}
